@@ -127,7 +127,14 @@ def gen_layout_desc(rng, collide=False):
                     opts.append(f'mux_signal: "{rng.choice(cand)}"')
                 if not opts:
                     opts.append(f"scale: {rng.choice(['1', '0.5', '-2'])}")
+                if rng.random() < 0.25:
+                    opts.append(f"bitstart: {rng.choice([0, 3, 8, 60, 64])}")  # documented, not used by the packed layout
                 blocks.append(f"    signal {fn} {{ {', '.join(opts)}, }},")
+            if blocks and rng.random() < 0.2:
+                # a signal block name written twice with other options: the first block of a name is the field's
+                fn = blocks[rng.randrange(len(blocks))].split()[1]
+                blocks.append(f'    signal {fn} {{ endianess: "{rng.choice(["big", "little"])}", mux_count: {rng.randint(1, 4)}, '
+                              f'mux_signal: "{rng.choice(cand)}", }},')
             alias = f"as {name}x{k}" if k else ""
             extra.append(f"impl can for {name} {alias} {{\n    id: {rng.randint(0, 2047)},\n" + "\n".join(blocks) + "\n}")
             d.nimpl_extra += 1
